@@ -41,6 +41,14 @@ Gap closure (fourth mutation round):
   C13.anova.order2_rank_cap   the same shapes with noise in {0, 1e-10, 1e-3, 0.5} and binding r: well-formed, ranks <= r
   C13.add_many.rank_cap  add_many(e=1e-10, r, trunc_freq in {default 15, 1, 2 (3, 4, 15, 16)}) with count - 1 below / equal to /
                          above / a multiple of the period, binding and non-binding r, number summands: ranks <= r, dense sum
+Input forms (audit f3-forms; reference = own model of the float64 / int64 image of what is passed):
+  C13.forms.anova        I_trn as list / tuple / int32 / int8 / uint8 / Fortran / strided / read-only, y_trn as list of floats / ints /
+                         tuple / int64 / int32 / float32 / strided / read-only, r / order as numpy.int64 / int32, noise 0 as int / float /
+                         numpy.float32, int / Generator seed, positional / keyword / mixed calls, ANOVA(...)(I) with I in the same form
+  C13.forms.anova_func   X_trn as list / tuple / float32 / Fortran / strided / read-only, y_trn as above, bounds as 12 forms (Python /
+                         numpy numbers, lists, typed arrays, tuple, defaults left out), n numpy.int64 / int32, lamb float / int /
+                         numpy.float32, positional / keyword / mixed calls
+  (a numpy.int64 seed is not converted by utils._rand - see clause C14.seed.numpy_integer)
 # DOUBTFUL (not yielded): data of scale <= 1e-10, e.g. y * 1e-10 for shape [3, 4], how 'full2', r = need: all pair
 # singular values fall below the absolute 1e-10 of matrix_skeleton, the pair terms are dropped, relative error 0.16.
 """
@@ -57,7 +65,8 @@ BOUNDS = ('d = 2..5, observed mode sizes 1..5 (+ 9, 12) (index values with gaps,
           'n = 2..6, m = 6n..10n points, lamb in {1e-7, 1e-3, 1}, boxes [-1,1], [0,2], [-3,5]; tensor-product point sets (4..7 nodes, '
           'd = 2..4) with one-variable / even / odd data, data scale 1e-15..1e-30; delta values 0, +-1e-300..1e300 around 1e-16; order 2 '
           'with d = 6, 7, 10 (15, 21, 45 pair terms) and r in {2, 3, 4, need}, noise {1e-10, 1e-3, 0.5}; add_many of 1..46 summands, '
-          'trunc_freq {15, 1, 2}, binding / non-binding rank cap')
+          'trunc_freq {15, 1, 2}, binding / non-binding rank cap; input forms: 8 index forms x 8 value forms x 3 number types x 5 call forms '
+          '(anova, 5 shapes, both orders), 6 point forms x 12 bound forms (anova_func, d = 2..4, n = 2..5) in rotation')
 
 EPS = np.finfo(float).eps
 SCALED = {'tiny8': 1e-8, 'tiny4': 1e-4, 'huge4': 1e4, 'huge8': 1e8}
@@ -644,6 +653,163 @@ def delta_value(shape, pos, v):
     return PASS
 
 
+# ------------------------------------------------------------------ input forms (audit f3-forms)
+# The statement quantifies over every sample set; the clauses above pass int64 / float64 C-ordered arrays, Python numbers and
+# (mostly) positional calls.  Here the same data arrive in the other forms a caller may use; the reference is the own model of
+# the float64 / int64 image of what is passed.
+
+I_FORMS = ('list', 'tuple', 'i32', 'i8', 'u8', 'F', 'V', 'ro')
+Y_FORMS = ('list', 'intlist', 'tuple', 'i64', 'i32', 'f32', 'V', 'ro')
+X_FORMS = ('list', 'tuple', 'f32', 'F', 'V', 'ro')
+NUM_FORMS = ('int', 'npi64', 'npi32')
+AB_FORMS = ('int', 'float', 'npf64', 'npi64', 'npf32', 'list', 'intlist', 'arr', 'i32arr', 'f32arr', 'tuple', 'default')
+CALL_FORMS = ('pos', 'kw', 'mix:2', 'min', 'kwmin')
+REQ = gen.call_form.REQ
+FBOXES = [(-1, 1), (-3, 5), (0, 2), (-2, -1)]
+
+
+def _arr_form(G, form):
+    """the array G (integer-valued, or float32-representable) with the same values in another dtype / memory layout"""
+    if form in ('i64', 'i32', 'i8', 'u8', 'f32'):
+        H = G.astype({'i64': np.int64, 'i32': np.int32, 'i8': np.int8, 'u8': np.uint8, 'f32': np.float32}[form])
+        return H if np.array_equal(H.astype(float), np.asarray(G, dtype=float)) else None
+    if form == 'F':
+        return np.asfortranarray(G)
+    if form == 'V':
+        big = np.zeros([2 * k for k in G.shape], dtype=G.dtype)
+        sl = tuple(slice(None, None, 2) for _ in G.shape)
+        big[sl] = G
+        return big[sl]
+    if form == 'ro':
+        H = G.copy()
+        H.setflags(write=False)
+        return H
+    if form == 'list':
+        return G.tolist()
+    if form == 'intlist':
+        return [int(v) for v in G]
+    if form == 'tuple':
+        return tuple(tuple(r) if isinstance(r, list) else r for r in G.tolist())
+    raise ValueError(form)
+
+
+def _num(v, form):
+    return {'int': int, 'npi64': np.int64, 'npi32': np.int32}[form](v)
+
+
+@clause('C13.forms.anova', funcs=('anova.anova', 'anova.ANOVA', 'anova.ANOVA.build', 'anova.ANOVA.cores'))
+def forms_anova(shape, how, seed, order, iform, yform, num, zero, call, genobj):
+    """anova / ANOVA on integer data handed over in other input forms - multi-indices as list of lists / tuple / int32 / int8 /
+    uint8 / Fortran-ordered / strided / read-only array, values as list of floats / of ints / tuple / int64 / int32 / float32 /
+    strided / read-only array, r and order as numpy.int64 / int32, noise 0 as int / float / numpy.float32, seed as int or
+    Generator, every argument positionally in the documented order / by keyword / mixed: float64 cores, observed mode sizes,
+    order 1: ranks == r and value == f0 + sum f1 (rounding), order 2 with r large enough: value == f0 + sum f1 + sum f2 (1e-6);
+    ANOVA(...)(I) with I in the same form == the model; the arguments are not modified."""
+    I, y, dom, P = _data(shape, how, 'int', seed)
+    d = len(shape)
+    If = _arr_form(I, iform)
+    if If is None:                                    # labels do not fit the dtype (negative labels / uint8): signed twin
+        If = _arr_form(I, 'i32')
+    yf = _arr_form(y, yform)
+    need = 2 + sum(min(shape[i], shape[k]) for i in range(d - 1) for k in range(i + 1, d))
+    r = 3 if order == 1 else need
+    z = {'int': 0, 'float': 0., 'npf32': np.float32(0)}[zero]
+    sd = np.random.default_rng(seed) if genobj else seed % 1000
+    snap = gen.snapshot([If, yf])
+    Y = gen.call_form(teneva.anova, ('I_trn', 'y_trn', 'r', 'order', 'noise', 'seed', 'fpath'),
+                      (If, yf, _num(r, num), _num(order, num), z, sd, None), (REQ, REQ, 2, 1, 1.E-10, None, None), call)
+    msg = gen.wf(Y, shape)
+    if msg:
+        return FAIL('not well-formed / wrong mode sizes: ' + msg)
+    if any(G.dtype != np.float64 for G in Y):
+        return FAIL(f'core dtypes {[str(G.dtype) for G in Y]}')
+    if not _ranks_ok(Y, r, order == 1):
+        return FAIL(f'TT-ranks {[G.shape[2] for G in Y[:-1]]} vs r = {r}')
+    f0, f1, f2 = _own_model(I, y, dom, order)
+    T = _model_dense(shape, f0, f1, f2)
+    got = gen.dense(Y)
+    sc = _scale(y, f0, f1, f2) * (1 + d)
+    if order == 1:
+        if not gen.close(got, T, sc):
+            return FAIL(f'value != f0 + sum f1: max dev {np.abs(got - T).max():.3e} (scale {sc:.3e})')
+    else:
+        err, nrm = np.linalg.norm(got - T), np.linalg.norm(T)
+        if not err <= 1e-6 * nrm + 1e-10 * (d * (d - 1) // 2) * np.sqrt(T.size):
+            return FAIL(f'value != f0 + sum f1 + sum f2: rel. error {err / max(nrm, 1e-300):.3e}')
+    A = teneva.ANOVA(If, yf, _num(order, num), sd if not genobj else np.random.default_rng(seed))
+    vals = A(If)
+    want = T[tuple(P.T)]
+    if not (np.shape(vals) == (len(I),) and gen.close(vals, want, sc * (1 + d * d))):
+        return FAIL(f'ANOVA(...)(I) with I as {iform}: differs from the model')
+    one = A(If[0])
+    if not (np.ndim(one) == 0 and gen.close(one, want[0], sc * (1 + d * d))):
+        return FAIL(f'ANOVA(...)(one multi-index as {iform}) = {one!r}, model {want[0]!r}')
+    if gen.snapshot([If, yf]) != snap:
+        return FAIL('an argument was modified')
+    return PASS
+
+
+@clause('C13.forms.anova_func', funcs=('anova_func.anova_func', 'anova_func.ANOVA_func', 'grid.poi_scale'))
+def forms_anova_func(d, n, seed, xform, yform, ab, num, lamb, call):
+    """anova_func on integer-valued data handed over in other input forms - points as list / tuple / float32 / Fortran-ordered /
+    strided / read-only array, values as list / int list / tuple / int64 / int32 / float32 array, bounds as Python int / float /
+    numpy.float64 / int64 / float32 number, float / int list, float64 / int32 / float32 array, tuple, or left at the default
+    [-1, 1], n as numpy.int64 / int32, lamb as float / int / numpy.float32, positional / keyword calls: the coefficient tensor
+    (e=None) is the delta layout of the own ridge fit of the float64 image of the data; e = 1e-8 agrees within 1e-6."""
+    g = gen.rng('C13.forms.func', d, n, seed, ab)
+    if ab in ('int', 'float', 'npf64', 'npi64', 'npf32'):
+        bx = [FBOXES[1 + seed % 2]] * d
+    elif ab == 'default':
+        bx = [FBOXES[0]] * d
+    else:
+        bx = [FBOXES[int(g.integers(len(FBOXES)))] for _ in range(d)]
+    a, b = np.array([x[0] for x in bx], dtype=float), np.array([x[1] for x in bx], dtype=float)
+    m = (6 + 2 * d) * n
+    X = np.clip(g.uniform(a, b, size=(m, d)).astype(np.float32).astype(float), a, b)
+    X[m // 3] = X[0]
+    y = np.rint(6. * np.cos(X.sum(axis=1)) + 2. * X[:, 0])
+    Xf, yf = _arr_form(X, xform), _arr_form(y, yform)
+    if ab in ('int', 'float', 'npf64', 'npi64', 'npf32'):
+        t = {'int': int, 'float': float, 'npf64': np.float64, 'npi64': np.int64, 'npf32': np.float32}[ab]
+        af, bf = t(bx[0][0]), t(bx[0][1])
+    elif ab == 'default':
+        af, bf = -1., 1.
+    else:
+        f = {'list': lambda v: [float(x) for x in v], 'intlist': lambda v: [int(x) for x in v], 'arr': lambda v: np.array(v, dtype=float),
+             'i32arr': lambda v: np.array(v, dtype=np.int32), 'f32arr': lambda v: np.array(v, dtype=np.float32),
+             'tuple': lambda v: tuple(float(x) for x in v)}[ab]
+        af, bf = f(a), f(b)
+    lf = {'float': 1e-3, 'int': 1, 'npf32': np.float32(0.5), 'default': 1.E-7}[lamb]
+    const, own, cond = _own_ridge(X, y, n, a, b, float(lf))
+    sc = np.abs(y).max() + abs(const) + sum(np.abs(c).sum() for c in own)
+    W = np.zeros([n] * d)
+    W[(0,) * d] = const
+    for k in range(d):
+        for p in range(1, n):
+            idx = [0] * d
+            idx[k] = p
+            W[tuple(idx)] = own[k][p - 1]
+    snap = gen.snapshot([Xf, yf, af, bf])
+    names, dflt = ('X_trn', 'y_trn', 'n', 'a', 'b', 'lamb', 'e'), (REQ, REQ, REQ, -1., 1., 1.E-7, 1.E-8)
+    A = gen.call_form(teneva.anova_func, names, (Xf, yf, _num(n, num), af, bf, lf, None), dflt, call)
+    msg = gen.wf(A, [n] * d)
+    if msg:
+        return FAIL('anova_func(e=None) not well-formed: ' + msg)
+    tol = 256. * EPS * cond * sc + 64. * EPS * sc * d
+    dev = float(np.abs(gen.dense(A) - W).max())
+    if not dev <= tol:
+        return FAIL(f'coefficient tensor differs from the delta layout of the own ridge fit by {dev:.3e} > {tol:.2e}')
+    B = gen.call_form(teneva.anova_func, names, (Xf, yf, _num(n, num), af, bf, lf, 1.E-8), dflt, call)
+    msg = gen.wf(B, [n] * d)
+    if msg:
+        return FAIL('anova_func not well-formed: ' + msg)
+    if not np.linalg.norm(gen.dense(B) - W) <= 1e-6 * np.linalg.norm(W) + tol * np.sqrt(W.size):
+        return FAIL(f'anova_func(e=1e-8) differs from the model: {np.linalg.norm(gen.dense(B) - W) / np.linalg.norm(W):.3e}')
+    if gen.snapshot([Xf, yf, af, bf]) != snap:
+        return FAIL('an argument was modified')
+    return PASS
+
+
 # ------------------------------------------------------------------ case list
 
 def cases(tier, seed):
@@ -818,3 +984,22 @@ def cases(tier, seed):
         yield 'C13.anova.noise', dict(base, r=int(g.integers(2, 6)), noise=float(g.choice([1e-10, 1e-3, 0.5])), aseed=s(),
                                       rel=bool(rep % 2))
         yield 'C13.anova.order2', dict(base, r=need, aseed=s())
+    # ---- input forms (audit f3-forms): every form of every argument at least once in quick
+    j = 0
+    for rnd in range(4 if big else 1):
+        for ki, iform in enumerate(I_FORMS):
+            for yform in (Y_FORMS if big else (Y_FORMS[ki % 2::2])):
+                for order in (1, 2):
+                    j += 1
+                    shape = ([3, 4], [2, 3, 2], [5, 2], [2, 2, 2, 2], [3, 1, 4])[(j + rnd) % 5]
+                    yield 'C13.forms.anova', dict(shape=shape, how=('full', 'full2', 'sparse')[j % 3], seed=j + 100 * rnd, order=order,
+                                                  iform=iform, yform=yform, num=NUM_FORMS[j % 3], zero=('int', 'float', 'npf32')[(j // 2) % 3],
+                                                  call=CALL_FORMS[(j + rnd) % 5], genobj=bool((j // 3) % 2))
+    j = 0
+    for rnd in range(3 if big else 1):
+        for ka, ab in enumerate(AB_FORMS):
+            for xform in (X_FORMS if big else X_FORMS[ka % 2::2]):
+                j += 1
+                yield 'C13.forms.anova_func', dict(d=2 + j % 3, n=2 + (j + rnd) % 4, seed=j + 100 * rnd, xform=xform, yform=Y_FORMS[(j + rnd) % 8],
+                                                   ab=ab, num=NUM_FORMS[j % 3], lamb=('float', 'int', 'npf32', 'default')[(j + rnd) % 4],
+                                                   call=CALL_FORMS[(j + rnd) % 5])
